@@ -701,6 +701,24 @@ func (g *Gen) genText(p *Prog) {
 	if g.chance(0.1) {
 		p.Exec(fmt.Sprintf("text %d %c %d", xi, "pb"[g.intn(2)], 0))
 	}
+	if g.chance(0.08) {
+		// infinities under every combination of sign flags (fmt: '+' wins over ' '; no zero padding of Inf)
+		ii := p.Load(Val{Form: 2, Neg: g.intn(2) == 0, Prec: uint(g.intn(40)), Mode: g.mode()})
+		format := "%"
+		for _, fl := range []byte("+ 0-") {
+			if g.chance(0.6) {
+				format += string(fl)
+			}
+		}
+		if g.chance(0.6) {
+			format += fmt.Sprint(g.intn(12))
+		}
+		if g.chance(0.5) {
+			format += "." + fmt.Sprint(g.intn(5))
+		}
+		format += string("eEfFgG"[g.intn(6)])
+		p.Exec(fmt.Sprintf("sprintf %d %x", ii, format))
+	}
 }
 
 // genRoundTrip: Text/MarshalText with precision -1, parsed back (C11).
